@@ -1,5 +1,5 @@
 """C02 - basic zones: the data-side preconditions BasicZoneProcessor relies on hold for every shipped basic zone
-(E-TAB, exhaustive), the compiler establishes them on the basic path (E-PATH on Transformer.transform), and
+(E-TAB, exhaustive), the compiler establishes them in basic scope (interpreted on a feature source, acv/pipeline.py), and
 zones shared with the extended database are encoded from identical recorded lines."""
 import ast
 
@@ -12,8 +12,9 @@ from .tables import Ref
 META = {
     'explanation': 'E-TAB over all basic zones, policies and years startYear-1..untilYear: whole-year UNTIL, one rule per month '
                    'and year, no Jan-1 transition, single-character letters, and the five-slot bound n(z,y) <= kMaxCacheEntries '
-                   'where the formula is derived from the call sites of addTransition reachable from init(); E-PATH over '
-                   'Transformer.transform() for the basic-only filters; zonedb vs zonedbx recorded-line equality; E-GNF year '
+                   'where the formula is derived from the call sites of addTransition reachable from init(); the compiler '
+                   'interpreted (E-SEQ) in basic scope on a source with one zone per construct outside the basic processor, its output '
+                   'rendered, parsed and put through the same data rules (B, B1-B4); zonedb vs zonedbx recorded-line equality; E-GNF year '
                    'alignment of the three cache-fill helpers (era of the label year, latest rule before the instant the '
                    'transition stands for, effect of a deviation enumerated over the shipped tables); findLatestPriorRule '
                    'interpreted (E-SEQ, typed, brokers and compareRulesBeforeYear / priorYearOfRule through their bodies) on '
@@ -21,8 +22,8 @@ META = {
                    '(min(TO, year-1), month); _get_anchor_rule interpreted on policies of two and three rules in every order '
                    'with SAVE 0 and SAVE 1:00 rules carrying different letters.',
     'decided': 'the stated data preconditions of BasicZoneProcessor hold for every shipped basic zone and year; the basic '
-               'cache never needs more than kMaxCacheEntries slots; the compiler applies the four basic-only filters on the '
-               'basic path; names(zonedb) is a subset of names(zonedbx) with identical recorded era/rule lines and TZ version; '
+               'cache never needs more than kMaxCacheEntries slots; what the compiler emits in basic scope for the feature source meets the '
+               'same preconditions (a basic-only filter that is skipped, mis-scoped, weakened or whose result is dropped lets a feature zone through); names(zonedb) is a subset of names(zonedbx) with identical recorded era/rule lines and TZ version; '
                'every stored basic transition pairs the era of its label year with the latest rule before the instant it stands for '
                '(for every shipped zone and year); anchor rules carry a standard-time letter',
     'not_decided': 'that the preconditions are sufficient, i.e. the basic algorithm itself against zic; equality of the answers '
